@@ -64,7 +64,7 @@ def gen_cases(rng, tier):
                     prev = [v_ for v_ in prev if np.array(v_).shape == np.array(val).shape]
                     if prev and rng.random() < 0.3:
                         val = rng.choice(prev)       # back to a value the parameter had before
-                    op.update({"name": p["name"], "value": val})
+                    op.update({"name": p["name"], "value": val, "inplace": rng.random() < 0.35})
             elif kind == "set_initial":
                 free = [key for key in ("T", "t0") if spec[key]["kind"] == "free"]
                 if free and rng.random() < 0.4:
